@@ -212,6 +212,10 @@ func InitHandler(sandbox Sandbox, functionVersion string, timeout int64, bs inte
 	for _, env := range os.Environ() {
 		// Split the env into by the first "=". This will account for if the env var's value has a '=' in it
 		envVar := strings.SplitN(env, "=", 2)
+		if len(envVar) < 2 {
+			// an entry without '=' (execve allows it): nothing to forward
+			continue
+		}
 		additionalFunctionEnvironmentVariables[envVar[0]] = envVar[1]
 	}
 
